@@ -258,6 +258,26 @@ func init() {
 		emitStr("mpmcRecvDiff", assignRhs(fset, recv.Body, "diff"))
 		emitStr("mpmcSendCell", assignRhs(fset, send.Body, "cell"))
 		emitStr("mpmcRecvCell", assignRhs(fset, recv.Body, "cell"))
+		ext, _ := get(fset, f, "Queue", "extend")
+		emitStr("mpmcExtendSize", assignRhs(fset, ext.Body, "currentSize"))
+		emitStr("mpmcExtendOldIndex", assignRhs(fset, ext.Body, "oldIndex"))
+		emitStr("mpmcExtendNewData", assignRhs(fset, ext.Body, "newData"))
+		var ranges []string
+		ast.Inspect(ext.Body, func(n ast.Node) bool {
+			if rs, ok := n.(*ast.RangeStmt); ok {
+				ranges = append(ranges, src(fset, rs.X))
+			}
+			if fs, ok := n.(*ast.ForStmt); ok && fs.Init != nil {
+				ranges = append(ranges, src(fset, fs.Init))
+			}
+			return true
+		})
+		emitList("mpmcExtendLoops", ranges)
+		var snaps []string
+		for _, v := range []string{"capacity", "extensions", "extended"} {
+			snaps = append(snaps, v+" := "+assignRhs(fset, send.Body, v))
+		}
+		emitList("mpmcSendSnapshot", snaps)
 		// ---- mpsc
 		fset2, f2, err := parseFile(repo, mpscPath)
 		if err != nil {
@@ -296,17 +316,17 @@ func init() {
 		if err != nil {
 			return Result{}, err
 		}
-		ext := ""
+		qext := ""
 		ast.Inspect(nqm.Body, func(n ast.Node) bool {
 			if ce, ok := n.(*ast.CallExpr); ok && strings.HasPrefix(src(fset3, ce.Fun), "mpmc.MustQueue") && len(ce.Args) == 2 {
-				ext = src(fset3, ce.Args[1])
+				qext = src(fset3, ce.Args[1])
 			}
 			return true
 		})
-		if ext == "" {
+		if qext == "" {
 			return Result{}, fmt.Errorf("NewQueueMedium: mpmc.MustQueue(capacity, extensions) call not found")
 		}
-		emitStr("pipelineQueueExtensions", ext)
+		emitStr("pipelineQueueExtensions", qext)
 		emitStr("queueMediumClosedType", structFieldType(fset3, f3, "QueueMedium", "closed"))
 		emitStr("accMediumClosedType", structFieldType(fset3, f3, "AccumulatorMedium", "closed"))
 		writesClosed := func(recvType string) (bool, error) {
@@ -335,6 +355,49 @@ func init() {
 		emitBool("accMediumRecvWritesClosed", w2)
 		emitBool("mediumDocSingleConsumer", strings.Contains(typeDoc(f3, "Medium"), "multiple-producer, single-consumer"))
 		emitBool("queueMediumDocSingleConsumer", strings.Contains(typeDoc(f3, "QueueMedium"), "single-consumer"))
+		// Core.ProcessSender: the only reader of a sender is the calling goroutine itself (the
+		// Recv loop is not inside a spawned closure; the NumProcs workers read an internal channel)
+		fset4, f4, err := parseFile(repo, "internal/listobjects/pipeline/internal/worker/core.go")
+		if err != nil {
+			return Result{}, err
+		}
+		ps, err := get(fset4, f4, "Core", "ProcessSender")
+		if err != nil {
+			return Result{}, err
+		}
+		recvOutside, recvInside := 0, 0
+		var walk func(n ast.Node, inLit bool)
+		walk = func(n ast.Node, inLit bool) {
+			ast.Inspect(n, func(m ast.Node) bool {
+				if m == n {
+					return true
+				}
+				switch x := m.(type) {
+				case *ast.FuncLit:
+					walk(x.Body, true)
+					return false
+				case *ast.CallExpr:
+					if strings.HasSuffix(src(fset4, x.Fun), "sender.Recv") {
+						if inLit {
+							recvInside++
+						} else {
+							recvOutside++
+						}
+					}
+				}
+				return true
+			})
+		}
+		walk(ps.Body, false)
+		emitNat("processSenderRecvOutsideClosures", recvOutside)
+		emitNat("processSenderRecvInsideClosures", recvInside)
+		drain := false
+		for _, st := range ps.Body.List {
+			if d, ok := st.(*ast.DeferStmt); ok && strings.HasPrefix(src(fset4, d.Call), "DrainSender(") {
+				drain = true
+			}
+		}
+		emitBool("processSenderDrainsInSameGoroutine", drain)
 		sb.WriteString("\nend OpenFGAVerif.Gen.Queue\n")
 		return Result{Lean: sb.String(), Summary: summary}, nil
 	})
